@@ -19,7 +19,11 @@ func register(name string, d driver) { drivers[name] = d }
 
 func main() {
 	// glog (used by the code under test) registers flags on the default set; keep it quiet
-	flag.CommandLine.Parse([]string{"-logtostderr=false", "-stderrthreshold=FATAL"})
+	if os.Getenv("VH_GLOG") != "" {
+		flag.CommandLine.Parse([]string{"-logtostderr=true"})
+	} else {
+		flag.CommandLine.Parse([]string{"-logtostderr=false", "-stderrthreshold=FATAL"})
+	}
 	if os.Getenv("VH_VERBOSE") == "" {
 		log.SetOutput(io.Discard) // the code under test logs through the standard logger
 	}
